@@ -376,15 +376,24 @@ func (w *world) updateErrors() (errs []error) {
 	}
 }
 
+// shutdown schedules the teardown of the case three seconds later: the manager's background probe
+// of a finished case starts up to 500 ms after UpdateAllProviders; until it is done the provider
+// entries keep their live connection, so the probe reaches the stub and changes nothing (if the
+// connections were closed or the endpoints disabled right away, the probe would dial again or report
+// the providers and the manager's 30 s reconnect loop would dial for every finished case). Then
+// the connections the manager dialed by itself are closed and the attached one goes back to the pool.
 func (w *world) shutdown() {
-	for _, l := range w.lists {
-		for _, o := range l {
-			o.cswp.VerifConsumerDisableEndpoints()
+	lists := w.lists
+	time.AfterFunc(3*time.Second, func() {
+		for _, l := range lists {
+			for _, o := range l {
+				o.cswp.VerifConsumerCloseConnectionsExcept(o.conn)
+			}
+			if len(l) > 0 {
+				putConn(l[0].conn)
+			}
 		}
-		if len(l) > 0 {
-			putConn(l[0].conn)
-		}
-	}
+	})
 }
 
 func (w *world) current() []*provObj { return w.lists[len(w.lists)-1] }
